@@ -1,6 +1,7 @@
 package rules
 
 import (
+	"go/types"
 	"go/token"
 	"sort"
 	"strings"
@@ -112,7 +113,22 @@ func runC08(c *report.Ctx) {
 			}
 		}
 		sites = append(sites, calls(rrt, delRawUnmined)...)
-		if len(sites) < 2 {
+		// the block-record bookkeeping (tx hashes to drop from their block's record) is a deletion too
+		an.Instrs(rrt, func(in ssa.Instruction) {
+			mu, ok := in.(*ssa.MapUpdate)
+			if !ok {
+				return
+			}
+			if mt, isM := mu.Map.Type().Underlying().(*types.Map); isM {
+				if n := an.NamedOf(mt.Key()); n != nil && n.Obj().Name() == "Hash" {
+					// inner set of blkDeleted: map[wire.Hash]struct{} reached from a map[uint64]…
+					if strings.Contains(p.Desc(mu.Map), "MakeMap") {
+						sites = append(sites, in)
+					}
+				}
+			}
+		})
+		if len(sites) < 3 {
 			c.Fail(sk(rrt)+":record-deletes", "anchor lost: RemoveRelevantTx no longer deletes tx/pending records", p.Pos(rrt.Pos()))
 		}
 		for i, s := range sites {
